@@ -789,12 +789,15 @@ func (obj *SparseReal64VectorJointIterator) Index() int {
   return obj.idx
 }
 func (obj *SparseReal64VectorJointIterator) Ok() bool {
-  return !(obj.s1 == nil || obj.s1.GetFloat64() == float64(0)) ||
-         !(obj.s2 == nil || obj.s2.GetFloat64() == float64(0))
+  return obj.idx != -1
 }
 func (obj *SparseReal64VectorJointIterator) Next() {
   ok1 := obj.it1.Ok()
   ok2 := obj.it2.Ok()
+  if !ok1 && !ok2 {
+    // all iterators are exhausted
+    obj.idx = -1
+  }
   obj.s1 = nil
   obj.s2 = nil
   if ok1 {
@@ -867,14 +870,16 @@ func (obj *SparseReal64VectorJoint3Iterator) Index() int {
   return obj.idx
 }
 func (obj *SparseReal64VectorJoint3Iterator) Ok() bool {
-  return !(obj.s1 == nil || obj.s1.GetFloat64() == float64(0)) ||
-         !(obj.s2 == nil || obj.s2.GetFloat64() == float64(0)) ||
-         !(obj.s3 == nil || obj.s3.GetFloat64() == float64(0))
+  return obj.idx != -1
 }
 func (obj *SparseReal64VectorJoint3Iterator) Next() {
   ok1 := obj.it1.Ok()
   ok2 := obj.it2.Ok()
   ok3 := obj.it3.Ok()
+  if !ok1 && !ok2 && !ok3 {
+    // all iterators are exhausted
+    obj.idx = -1
+  }
   obj.s1 = nil
   obj.s2 = nil
   obj.s3 = nil
